@@ -306,6 +306,13 @@ pub fn gen_case(rng: &mut Rng, invoices: &[(Vec<u8>, Vec<u8>, Option<u64>)]) -> 
     if rng.coin(1, 3) { payload.push((8, rng.bytes(35))); }
     if rng.coin(1, 10) { payload.push((16, vec![1, 2])); }
     if rng.coin(1, 10) { payload.push((65537 + rng.below(10), rng.bytes(3))); }
+    // neighbours at the boundaries of the variable-length integers (type and length), and an empty value last
+    if rng.coin(1, 4) {
+        let t = *rng.pick(&[252u64, 253, 254, 255, 0xffff, 0x10000, 0xffff_ffff, 0x1_0000_0000]);
+        let l = *rng.pick(&[0usize, 1, 252, 253, 254, 255, 256]);
+        payload.push((t, rng.bytes(l)));
+    }
+    if rng.coin(1, 12) { payload.push((0x1_0000_0001 + rng.below(5), vec![])); }
     let htlc_hash = match rng.below(10) { 0 => rng.bytes(32), 1 => { let mut h = ihash.clone(); h[31] ^= 1; h } 2 => ihash[..31].to_vec(), _ => ihash.clone() };
     let amt = iamt.unwrap_or(1_000_000);
     Case {
